@@ -659,7 +659,11 @@ class Lexer:
                     msg = str(e).split(":")[-1].strip()
                     raise TemplateSyntaxError(msg, lineno, name, filename) from e
             elif token == TOKEN_INTEGER:
-                value = int(value_str.replace("_", ""), 0)
+                try:
+                    value = int(value_str.replace("_", ""), 0)
+                except ValueError as e:
+                    # more digits than int() converts
+                    raise TemplateSyntaxError(str(e), lineno, name, filename) from e
             elif token == TOKEN_FLOAT:
                 # remove all "_" first to support more Python versions
                 value = literal_eval(value_str.replace("_", ""))
